@@ -60,6 +60,15 @@ def run_check(prop: str, tier: str) -> int:
         common.regenerate(rep.log)
     except Exception as e:  # noqa: BLE001
         rep.obligation("T1/T2 table translation", "translator", False, str(e)[:500])
+    if prop == "C01":
+        # T3: the failure sites of the source against the reviewed inventory the totality theorems account for
+        try:
+            import sites
+            ok3, detail3 = sites.check(common.REPO)
+        except Exception as e:  # noqa: BLE001
+            ok3, detail3 = False, f"site inventory could not be computed: {e}"
+        rep.obligation("T3 failure-site inventory (tie/sites_reviewed.json)", "site inventory", ok3, detail3)
+        rep.log("T3: " + detail3)
     build = common.lake_build(spec["modules"] + ["driver"], rep.log)
     hits = common.forbidden_tokens()
     rep.obligation("no sorry/admit/axiom/native_decide/bv_decide/implemented_by/unsafe/maxHeartbeats 0", "audit",
